@@ -4822,25 +4822,27 @@ _trait_set_property(trait_object *trait, PyObject *args)
 static void
 trait_clone(trait_object *trait, trait_object *source)
 {
+    /* Take the new references first, so that cloning a trait onto itself is
+       safe; Py_XSETREF releases whatever the trait held before. */
+    Py_XINCREF(source->py_post_setattr);
+    Py_XINCREF(source->py_validate);
+    Py_XINCREF(source->delegate_name);
+    Py_XINCREF(source->default_value);
+    Py_XINCREF(source->delegate_prefix);
+    Py_XINCREF(source->handler);
     trait->flags = source->flags;
     trait->getattr = source->getattr;
     trait->setattr = source->setattr;
     trait->post_setattr = source->post_setattr;
-    trait->py_post_setattr = source->py_post_setattr;
+    Py_XSETREF(trait->py_post_setattr, source->py_post_setattr);
     trait->validate = source->validate;
-    trait->py_validate = source->py_validate;
+    Py_XSETREF(trait->py_validate, source->py_validate);
     trait->default_value_type = source->default_value_type;
-    trait->default_value = source->default_value;
-    trait->delegate_name = source->delegate_name;
-    trait->delegate_prefix = source->delegate_prefix;
+    Py_XSETREF(trait->default_value, source->default_value);
+    Py_XSETREF(trait->delegate_name, source->delegate_name);
+    Py_XSETREF(trait->delegate_prefix, source->delegate_prefix);
     trait->delegate_attr_name = source->delegate_attr_name;
-    trait->handler = source->handler;
-    Py_XINCREF(trait->py_post_setattr);
-    Py_XINCREF(trait->py_validate);
-    Py_XINCREF(trait->delegate_name);
-    Py_XINCREF(trait->default_value);
-    Py_XINCREF(trait->delegate_prefix);
-    Py_XINCREF(trait->handler);
+    Py_XSETREF(trait->handler, source->handler);
 }
 
 static PyObject *
